@@ -45,3 +45,28 @@ Proof.
   intros [= <- <-]. destruct (wt p0); auto.
   rewrite existsb_app. cbn. rewrite Bool.orb_true_r. discriminate.
 Qed.
+
+(* ---- facts about the promotion rule that do not go through validation ---- *)
+Lemma lub_comm a b : lub a b = lub b a.
+Proof. destruct a, b; reflexivity. Qed.
+
+Lemma lub_idem a : lub a a = a.
+Proof. destruct a; reflexivity. Qed.
+
+(* for operands that are not Bool the conversions the checker inserts always
+   exist in codegen.go: promotion never turns an accepted arithmetic or
+   comparison into a code generation error *)
+Lemma lub_conv_exists a b :
+  a <> TBool -> b <> TBool ->
+  conv_exists a (lub a b) = true /\ conv_exists b (lub a b) = true.
+Proof. destruct a, b; cbn; intros H1 H2; try congruence; auto. Qed.
+
+(* a promoted operand has the operation's type (Lang/Wt.v typing) *)
+Lemma conv_to_typed decls strs nre f t e e' :
+  conv_to f t e = EOk e' -> etype decls strs nre e = Some f -> etype decls strs nre e' = Some t.
+Proof.
+  unfold conv_to. destruct (ty_eqb f t) eqn:Heq.
+  - intros [= <-] H. destruct f, t; cbn in Heq; try discriminate; exact H.
+  - destruct (conv_exists f t) eqn:Hc; try discriminate. intros [= <-] H.
+    cbn. rewrite H. destruct f, t; cbn in *; try discriminate; reflexivity.
+Qed.
